@@ -45,7 +45,9 @@ def forced_classes(tier):
     (all basis orders x chain lengths) and high fan-out models for each -a value"""
     f = [{"kind": "corpus", "chains": True, "order": 6}, {"kind": "pruned", "chains": True, "order": 6},
          {"kind": "corpus", "chains": True, "order": 5}, {"kind": "pruned", "chains": True, "order": 5},
-         {"kind": "random", "chains": True, "order": 6}, {"kind": "corpus", "chains": True, "order": 4}]
+         {"kind": "random", "chains": True, "order": 6}, {"kind": "corpus", "chains": True, "order": 4},
+         {"kind": "corpus", "shared": True, "order": 4}, {"kind": "pruned", "shared": True, "order": 5},
+         {"kind": "corpus", "shared": True, "order": 6}, {"kind": "random", "shared": True, "order": 4}]
     abits = [1, 2, 3, 4, 6, 9, 22, 25, 64, 255]
     f += [{"kind": "fanout", "abits": a} for a in (abits if tier != "quick" else abits[1:10:2])]
     return f
@@ -60,6 +62,8 @@ def lm_stream(ctx, hexe, dexe, n_cases, size, want=("oracle", "struct", "spec"),
         case = lmgen.gen_case(ctx.rng, size=size, force=force)
         for (b, L) in getattr(case, "chains", []):
             ctx.hist("lm.blankchain.order%d" % case.meta["order"], "basis=%d,len=%d" % (b, L))
+        for (sl, lv, nh) in getattr(case, "shared", []):
+            ctx.hist("lm.sharedblanks", "suffix=%d,levels=%d,heads=%d" % (sl, lv, nh))
         if case.meta["kind"] == "fanout":
             ctx.hist("lm.fanout.abits", case.abits)
             ctx.hist("lm.fanout.buckets_spanned_min", case.meta["buckets_spanned_min"])
